@@ -53,6 +53,15 @@ SHADOW = [
 
 # sources the grammar can read in more than one way (a blank inside a regex is a literal and also ignorable white space, ...):
 # which reading wins must not depend on any iteration order either
+# an if/else whose branches start differently (an inverted set in one, the excluded byte spelled out in the other) joined after a statement that ends by
+# lookahead: what the condition point "starts with" is computed from a *set of states* (identity-hashed), so the verdict must not depend on their order
+IDHASH = [
+    ('out int n = 0; parser { case { "p" -> { n = 1; } "r" -> {} } /xq?/; if n == 1 { /[^q]z/; } else { "qz"; } }', []),
+    ('out int n = 0; parser { case { "p" -> { n = 1; } "r" -> {} } /xq?/; if n == 1 { "qz"; } else { /[^q]z/; } "!"; }', []),
+    ('out int n = 0; parser { case { "p" -> { n = 1; } "r" -> { n = 2; } "s" -> {} } /x[qw]?/; if n == 1 { /[^qw]z/; } elif n == 2 { "qz"; } else { "wz"; } }', []),
+    ('out int n = 0; parser { case { "p" -> { n = 1; } "r" -> {} } optional { "xq"; } if n == 1 { /[^x]z/; } else { "xz"; } }', []),
+    ('out int n = 0; hook h; parser { case { "p" -> { n = 1; } "r" -> {} } loop { /x+/; if n == 1 { /[^x;]z/; } else { "yz"; } optional { ";;"; break; } } h(); }', []),
+]
 GRAMMAR_AMBIG = [
     ('parser { /GET [a-z]+ HTTP/; "!"; }', []),
     ('out str[8] s; parser { s += /a b  c/; ";"; }', []),
@@ -144,6 +153,8 @@ def programs(tier, seed):
         out.append(dict(label="HW#%d" % j, src=U.source(tuple(p)), argv=U.needs_flags(tuple(p))))
     for j, (src, argv) in enumerate(SHADOW):
         out.append(dict(label="SHADOW#%d" % j, src=src + "\n", argv=argv))
+    for j, (src, argv) in enumerate(IDHASH):
+        out.append(dict(label="SHADOW-IDHASH#%d" % j, src=src + "\n", argv=argv))
     for j, (src, argv) in enumerate(GRAMMAR_AMBIG):
         out.append(dict(label="SHADOW-GRAMMAR#%d" % j, src=src + "\n", argv=argv))
     alt = ["/(ab|ac|ad)+e|(a|b)c?/", "/[a-c][^a]c|x(y|z)*/", "/(a|b|c)(a|b|c)(a|b)/"]
